@@ -321,10 +321,26 @@ class C16Check(object):
                 if s is not None:
                     out.probe("twin_spaces_coloured")
                     self._colour(s, out, "twin%d.%d:%s" % (j, i, sp["kind"]), sp)
-        trial = mk(grid1, case["trial"], "trial")
+        # a barycentric kind the grid does not support (e.g. BC on a non-manifold mesh) falls back to its
+        # primal counterpart, so that the run still exercises the profile's kernels
+        fallback = {"BC": "RWG", "RBC": "SNC", "DUAL0": "DP0", "DUAL1": "P1"}
+
+        def mk_fb(grid, sp, name):
+            s_ = mk(grid, sp, name)
+            if s_ is None and sp["kind"] in fallback:
+                sp2 = dict(sp, kind=fallback[sp["kind"]])
+                s_ = mk(grid, sp2, name + "(fallback)")
+                if s_ is not None:
+                    out.probe("space_kind_fallback")
+                    sp.clear()
+                    sp.update(sp2)
+            return s_
+
+        same_spec = (not two) and case["test"] == case["trial"]
+        trial = mk_fb(grid1, case["trial"], "trial")
         if trial is None:
             return
-        test = trial if (not two and case["test"] == case["trial"]) else mk(grid2, case["test"], "test")
+        test = trial if same_spec else mk_fb(grid2, case["test"], "test")
         if test is None:
             return
         self._colour(trial, out, "trial:" + case["trial"]["kind"], case["trial"])
